@@ -191,3 +191,17 @@ func init() {
 		Edits: []edit{{"wal.go", "	w.metrics.IncrementCounter(\"segment_rotations\", 1)\n	return w.mutateStateLocked(txn)", "	return w.mutateStateLocked(txn)"},
 			{"wal.go", "			w.log.Error(\"rotate error\", \"err\", err)\n		}", "			w.log.Error(\"rotate error\", \"err\", err)\n		} else {\n			w.metrics.IncrementCounter(\"segment_rotations\", 1)\n		}"}}})
 }
+
+func init() {
+	addMutant(mutant{Name: "writer/offsetforframe-wraps-not-found", Fire: []string{"ORD-18c"},
+		Edits: []edit{{"segment/writer.go", "	if idx < w.info.BaseIndex || idx < w.info.MinIndex || idx > w.LastIndex() {\n		return 0, types.ErrNotFound\n	}", "	if idx < w.info.BaseIndex || idx < w.info.MinIndex || idx > w.LastIndex() {\n		return 0, fmt.Errorf(\"index %d not in tail segment: %w\", idx, types.ErrNotFound)\n	}"}}})
+	addMutant(mutant{Name: "reader/getlog-adds-context-to-lookup-error", Fire: []string{"ORD-18c"},
+		Edits: []edit{{"segment/reader.go", "	offset, err := r.findFrameOffset(idx)\n	if err != nil {\n		return nil, err\n	}", "	offset, err := r.findFrameOffset(idx)\n	if err != nil {\n		return nil, fmt.Errorf(\"segment %d: %w\", r.info.ID, err)\n	}"}}})
+	addMutant(mutant{Name: "wal/storelogs-release-reassigned-after-defer", Fire: []string{"VF-27", "ACC-05"},
+		Edits: []edit{{"wal.go", "		s2, release2 := w.acquireState()\n		defer release2()\n\n		// Overwrite the state we read before so the code below uses the new state\n		s = s2\n", "		s, release = w.acquireState()\n"}}})
+}
+
+func init() {
+	addMutant(mutant{Name: "format/readfileheader-wraps-corrupt-sentinel", Fire: []string{"ORD-18c"},
+		Edits: []edit{{"segment/format.go", "	if m != magic {\n		return nil, types.ErrCorrupt\n	}", "	if m != magic {\n		return nil, fmt.Errorf(\"%w: bad magic %x\", types.ErrCorrupt, m)\n	}"}}})
+}
